@@ -68,9 +68,20 @@ SCHEMA_PROPS = {"C01", "C03", "C04", "C06", "C07", "C13", "C16", "C17"}
 
 
 def lake_build(targets, timeout=3000):
-    """-> (ok, output)"""
-    r = subprocess.run(["lake", "build"] + list(targets), cwd=LEAN, capture_output=True, text=True, timeout=timeout)
-    return r.returncode == 0, (r.stdout + r.stderr)
+    """-> (ok, output); ok is None when the build did not finish within `timeout` (the whole process group is stopped)"""
+    import signal
+    p = subprocess.Popen(["lake", "build"] + list(targets), cwd=LEAN, stdout=subprocess.PIPE, stderr=subprocess.STDOUT,
+                         text=True, start_new_session=True)
+    try:
+        out, _ = p.communicate(timeout=timeout)
+    except subprocess.TimeoutExpired:
+        try:
+            os.killpg(p.pid, signal.SIGKILL)
+        except OSError:
+            pass
+        out, _ = p.communicate()
+        return None, (out or "") + "\n(build stopped after %d s)" % timeout
+    return p.returncode == 0, out
 
 
 def strip_comments(src: str) -> str:
@@ -482,7 +493,7 @@ def main(argv=None):
     obligations = []
     discharged = []
     translator_problems = []
-    witness_ok, witness_bad = [], []
+    witness_ok, witness_bad, witness_skipped = [], [], []
     audit_res = {}
     tie_res = None
     build_out = ""
@@ -524,9 +535,13 @@ def main(argv=None):
             # non-vacuity witnesses: class-specific examples kept apart from the obligations — if one stops building
             # the theorems still stand, so this is a note, not a broken obligation
             for m in entry.get("witness_modules", []):
-                okw, outw = lake_build([m])
+                # witnesses are examples, not obligations: in the quick tier a witness module that has to be re-evaluated
+                # from scratch (its tables depend on the generated schema) gets a bounded time
+                okw, outw = lake_build([m], timeout=(3000 if tier == "thorough" else 240))
                 if okw:
                     witness_ok.append(m)
+                elif okw is None:
+                    witness_skipped.append(m)
                 else:
                     errs_w = re.findall(r"error: [^\n]*", outw)
                     witness_bad.append((m, "; ".join(errs_w[:3]) or "build failed"))
@@ -572,6 +587,8 @@ def main(argv=None):
     ctx.proof_fail = proof_fail
     if witness_ok:
         ctx.notes.append({"non_vacuity_witness_modules_checked": witness_ok})
+    if witness_skipped:
+        ctx.notes.append({"non_vacuity_witness_modules_not_rebuilt_within_quick_budget": witness_skipped})
     for m, why in witness_bad:
         ctx.notes.append({"non_vacuity_witness_no_longer_checks": m, "why": why,
                           "meaning": "a class-specific example of the theorems' hypotheses stopped building; the theorems are unaffected"})
